@@ -159,6 +159,23 @@ chk("C07",
     "TLA+ spec + TLC; spec->impl replay: generated declarations parsed and compared with spec-computed ABI shapes",
     "DESIGN.md §5 C07")
 
+chk("C01",
+    "spec/abi/CallProtocol.tla is the call/return state machine between a foreign caller and the Rust method bodies (CCall, Enter "
+    "with exactly the caller's tokens, Return, CReturn, nested callbacks, refused calls); TLC checks WellNested, AtMostOnce, "
+    "ReturnedMeansEntered, RejectedNeverEnters. spec/abi/Abi.tla gives every slot's C shape, size and alignment. The catalogue "
+    "(206 structured-coverage signatures + TLC-simulated multi-parameter ones) x value vectors (extremes, NaN payloads, non-scalar "
+    "DiplomatChar, NULL+0 and empty slices, invalid UTF-8/UTF-16 in unvalidated strings, every Option/Result arm) is compiled with "
+    "the real proc macro into a staticlib, declared by the real C backend and driven from a gcc -fsanitize=address,undefined "
+    "program that includes only the generated headers. One log function shared by both sides records CCall/RustEnter/RustReturn/"
+    "CReturn/CWrite in program order: tokens must be equal across the boundary and equal to the spec's expectation, struct "
+    "layouts (sizeof/_Alignof/offsetof vs size_of/align_of/offset_of! vs Layout) must agree, every prototype must be "
+    "pointer-compatible with the spec's scalar types and have the spec's size/alignment for aggregates, and the whole log is "
+    "validated by Trace_CallProtocol.tla (exactly once, in order); a corrupted token must be rejected.",
+    "x86-64 SysV, gcc 12. Pointers are compared between the two sides. &str arguments are valid UTF-8 (caller's obligation). "
+    "Callbacks and traits are covered by the C++ leg (C02) only.",
+    "TLA+ spec + TLC; spec->impl replay (compiled and executed) and impl->spec trace validation",
+    "DESIGN.md §5 C01")
+
 NOT_YET = {}
 
 
